@@ -358,6 +358,25 @@ def c17_run(case):
         got = list(s.iterate_jobs(scan_schedulers=True))
         if ids(got) != ids(atoms + scheds):
             return 'iterate_jobs(scan_schedulers=True) wrong'
+        # two traversals in progress at once see the same jobs
+        pairs = list(zip(s.iterate_jobs(), s.iterate_jobs()))
+        if len(pairs) != len(atoms) or any(a is not b for a, b in pairs):
+            return 'two iterate_jobs() traversals in lockstep disagree'
+        # requirements among the jobs (also dangling ones, after a member that others require was removed and the
+        # tree not sanitized) do not matter to a traversal
+        if len(atoms) >= 2:
+            a, b = rng.sample(atoms, 2)
+            b.requires(a)
+            owners = [sc for sc in [s] + scheds if a in sc.jobs]
+            if owners:
+                owners[0].remove(a)
+                rest = [x for x in atoms if x is not a]
+                try:
+                    got = list(s.iterate_jobs())
+                except Exception as exc:
+                    return 'iterate_jobs() raises %r after a member was removed' % (exc,)
+                if ids(got) != ids(rest):
+                    return 'iterate_jobs() wrong after a member was removed'
         return None
     n, edges = case['n'], [tuple(e) for e in case['edges']]
     if case['kind'] == 'c17-edit':
@@ -1023,6 +1042,19 @@ def rt_cases(prop):
             S('top', [J('a'), J('b', duration=3), J('c')], [(2, 0), (2, 1)], probe_at=[2]),
             S('top', [S('in', [J('a'), J('b', duration=3), J('c')], [(2, 0), (2, 1)]), J('z', duration=4)], probe_at=[1.5, 2.5]),
             S('top', [J('a'), J('b', duration=3), J('c'), J('d', duration=2)], [(2, 0), (2, 1), (3, 0)], probe_at=[0.5, 2], window=2),
+            # a job behind a nested scheduler AND another job: the nested scheduler's finite jobs are done (or it has
+            # failed) while its own run is not over yet (slow forever job / slow shutdown handler / second run)
+            S('top', [S('s', [J('i1'), J('f', duration=None, forever=True, cancel_delay=0.5)]), J('r', duration=1, yields=3),
+                      J('x')], [(2, 0), (2, 1)]),
+            S('top', [S('s', [J('i1', shutdown_duration=0.75)]), J('r', duration=1, yields=3), J('x')], [(2, 0), (2, 1)]),
+            S('top', [S('s', [J('i1'), J('i2', duration=3)]), J('r', duration=1), J('x')], [(2, 0), (2, 1)], rerun=True),
+            S('top', [S('s', [J('i1', duration=9)], timeout=1), J('r', duration=2), J('x')], [(2, 0), (2, 1)]),
+            # a job behind a returning and a raising job that complete in the same batch, with a successor of its own
+            S('top', [J('a', duration=1), J('b', duration=1, outcome='raise'), J('c'), J('d')], [(2, 0), (2, 1), (3, 2)]),
+            S('top', [J('a', duration=0), J('b', duration=0, outcome='raise'), J('c', duration=2), J('d'), J('e', duration=3)],
+              [(2, 0), (2, 1), (3, 2)]),
+            *[S('top', [J('a', duration=1, yields=i), J('b', duration=1, outcome='raise', yields=j), J('c'), J('d')],
+                [(2, 0), (2, 1), (3, 2)]) for i in range(3) for j in range(3)],
             # a tolerated failure first, a critical one later, along chains of critical / non-critical schedulers
             S('top', [S('n1', [S('n2', [J('t', outcome='raise'), J('x', duration=2, critical=True, outcome='raise')],
                                  critical=True)], critical=True), J('y', duration=5)], critical=True),
